@@ -28,12 +28,11 @@ import (
 
 func (h *harness) stageConfirms() {
 	for _, chain := range crosschaintypes.GetSupportChains() {
-		x := h.c.X(chain)
-		if o := guard(func() error { x.SetupOracles([]int64{20000, 10000}); return nil }); o.Class != "ok" {
-			h.rep.Count("confirms:setup-failed:" + chain)
-			h.rep.Notes = append(h.rep.Notes, "confirm stage: oracle setup failed on "+chain+": "+o.Msg)
+		if h.w == nil || h.w.chains[chain] == nil {
+			h.rep.Count("confirms:no-world:" + chain)
 			continue
 		}
+		x := h.w.chains[chain].x
 		ctx := h.c.Ctx
 		k := x.Keeper
 		var members crosschaintypes.BridgeValidators
@@ -42,12 +41,13 @@ func (h *harness) stageConfirms() {
 		}
 		tok := lib.ExternalContract(h.seed, chain, 77)
 		user := lib.ExternalAccount(h.seed, chain, 78)
+		const objNonce = 900001 // far from the nonces the populated state uses
 		setup := guard(func() error {
-			k.StoreOracleSet(ctx, crosschaintypes.NewOracleSet(1, uint64(ctx.BlockHeight()), members))
-			if err := k.StoreBatch(ctx, &crosschaintypes.OutgoingTxBatch{BatchNonce: 1, BatchTimeout: 1 << 40, TokenContract: tok, Block: uint64(ctx.BlockHeight()), FeeReceive: user}); err != nil {
+			k.StoreOracleSet(ctx, crosschaintypes.NewOracleSet(objNonce, uint64(ctx.BlockHeight()), members))
+			if err := k.StoreBatch(ctx, &crosschaintypes.OutgoingTxBatch{BatchNonce: objNonce, BatchTimeout: 1 << 40, TokenContract: tok, Block: uint64(ctx.BlockHeight()), FeeReceive: user}); err != nil {
 				return err
 			}
-			k.SetOutgoingBridgeCall(ctx, &crosschaintypes.OutgoingBridgeCall{Nonce: 1, Timeout: 1 << 40, BlockHeight: uint64(ctx.BlockHeight()), Sender: user, Refund: user, To: tok,
+			k.SetOutgoingBridgeCall(ctx, &crosschaintypes.OutgoingBridgeCall{Nonce: objNonce, Timeout: 1 << 40, BlockHeight: uint64(ctx.BlockHeight()), Sender: user, Refund: user, To: tok,
 				Tokens: []crosschaintypes.ERC20Token{{Contract: tok, Amount: sdkmath.NewInt(1)}}, Data: "00", Memo: "", EventNonce: 0})
 			return nil
 		})
@@ -61,11 +61,11 @@ func (h *harness) stageConfirms() {
 		mk := func(kind int, sig string) proto.Message {
 			switch kind {
 			case 0:
-				return &crosschaintypes.MsgOracleSetConfirm{Nonce: 1, BridgerAddress: or.Bridger.Acc().String(), ExternalAddress: or.ExtAddr, Signature: sig, ChainName: chain}
+				return &crosschaintypes.MsgOracleSetConfirm{Nonce: objNonce, BridgerAddress: or.Bridger.Acc().String(), ExternalAddress: or.ExtAddr, Signature: sig, ChainName: chain}
 			case 1:
-				return &crosschaintypes.MsgConfirmBatch{Nonce: 1, TokenContract: tok, BridgerAddress: or.Bridger.Acc().String(), ExternalAddress: or.ExtAddr, Signature: sig, ChainName: chain}
+				return &crosschaintypes.MsgConfirmBatch{Nonce: objNonce, TokenContract: tok, BridgerAddress: or.Bridger.Acc().String(), ExternalAddress: or.ExtAddr, Signature: sig, ChainName: chain}
 			default:
-				return &crosschaintypes.MsgBridgeCallConfirm{Nonce: 1, BridgerAddress: or.Bridger.Acc().String(), ExternalAddress: or.ExtAddr, Signature: sig, ChainName: chain}
+				return &crosschaintypes.MsgBridgeCallConfirm{Nonce: objNonce, BridgerAddress: or.Bridger.Acc().String(), ExternalAddress: or.ExtAddr, Signature: sig, ChainName: chain}
 			}
 		}
 		names := []string{"MsgOracleSetConfirm", "MsgConfirmBatch", "MsgBridgeCallConfirm"}
@@ -108,21 +108,21 @@ func (h *harness) confirmCheckpoint(chain string, kind int, x *lib.XChain, gravi
 		var err error
 		switch kind {
 		case 0:
-			os := x.Keeper.GetOracleSet(ctx, 1)
+			os := x.Keeper.GetOracleSet(ctx, 900001)
 			if chain == trontypes.ModuleName {
 				cp, err = trontypes.GetCheckpointOracleSet(os, gravityID)
 			} else {
 				cp, err = os.GetCheckpoint(gravityID)
 			}
 		case 1:
-			b := x.Keeper.GetOutgoingTxBatch(ctx, tok, 1)
+			b := x.Keeper.GetOutgoingTxBatch(ctx, tok, 900001)
 			if chain == trontypes.ModuleName {
 				cp, err = trontypes.GetCheckpointConfirmBatch(b, gravityID)
 			} else {
 				cp, err = b.GetCheckpoint(gravityID)
 			}
 		default:
-			bc, found := x.Keeper.GetOutgoingBridgeCallByNonce(ctx, 1)
+			bc, found := x.Keeper.GetOutgoingBridgeCallByNonce(ctx, 900001)
 			if !found {
 				return fmt.Errorf("not found")
 			}
